@@ -17,7 +17,9 @@
 (*   Bind       uid, pilot, state: Notify of a full dict carrying 'pilot'  *)
 (*   PilotFinal pilot: _pilot_state_cb called directly for a final pilot   *)
 (*   PNotify    batch = <<type, pid, state>>*, calls = pilots whose state  *)
-(*              callbacks ran with a final state, npilots, stray           *)
+(*              callbacks ran with a final state, npilots, stray; docs     *)
+(*              labels the other fields of the pilot documents (they are   *)
+(*              input space only: the verdict is on states and callbacks)  *)
 (***************************************************************************)
 EXTENDS ClientStateOps, TLC, Json, IOUtils
 
@@ -34,6 +36,10 @@ Uids == SeqToSet(T.tasks)
 Pids == SeqToSet(T.pilots)
 
 E(cond, name) == IF cond THEN {} ELSE {name}
+
+RECURSIVE SetToSeq(_)
+SetToSeq(S) == IF S = {} THEN <<>>
+               ELSE LET x == CHOOSE y \in S : TRUE IN <<x>> \o SetToSeq(S \ {x})
 NoDet == [t \in Uids |-> "none"]
 
 Init ==
@@ -171,8 +177,15 @@ Step ==
                /\ errs' = errs \cup DeathErrs(e, <<e.pilot>>, {})
                /\ UNCHANGED bound
           [] e.ev = "PNotify" ->
+               \* a pilot has reached a final state when the application can
+               \* see it final (Pilot.state), whether or not the state callbacks
+               \* ran: an exception between the two leaves its tasks unfailed
+               LET died == {p \in Pids : ~IsFinal(NP, pstate[p]) /\ IsFinal(NP, e.ppost[p].st)}
+                   ends == e.calls \o SetToSeq(died \ SeqToSet(e.calls)) IN
                /\ errs' = errs \cup PNotifyErrs(e)
-                            \cup DeathErrs(e, e.calls, {p \in Pids : IsFinal(NP, pstate[p])})
+                            \cup DeathErrs(e, ends, {p \in Pids : IsFinal(NP, pstate[p])})
+                            \cup (IF died \subseteq SeqToSet(e.calls) THEN {}
+                                  ELSE {"N.FinalWithoutCallback"})
                /\ UNCHANGED bound
           [] OTHER ->
                /\ errs' = errs \cup {"X.UnknownEvent"}
